@@ -11,6 +11,12 @@ def _who(w):
     return "WBad"
 
 
+def _obs(f, p, nn):
+    w, st, i, a = f[p:p + 4]
+    vals = f[p + 4:p + 4 + nn]
+    return "(mko %s %s %s %s [%s])" % (_who(w), st, coq_bytes(i), coq_bytes(a), "; ".join(coq_bytes(v) for v in vals)), p + 4 + nn
+
+
 def _events(f, p, nn, nev):
     evs = []
     for _ in range(nev):
@@ -18,16 +24,21 @@ def _events(f, p, nn, nev):
         if t == "R":
             evs.append("EvRegister %s %s" % (coq_bytes(f[p]), coq_bytes(f[p + 1]))); p += 2
         elif t == "B":
-            k, path, meth, w, st, i, a = f[p:p + 7]; p += 7
-            vals = f[p:p + nn]; p += nn
-            evs.append("EvBegin %s%%nat %s %s (mko %s %s %s %s [%s])" % (
-                k, coq_bytes(path), coq_bytes(meth), _who(w), st, coq_bytes(i), coq_bytes(a),
-                "; ".join(coq_bytes(v) for v in vals)))
+            k, path, meth = f[p:p + 3]; p += 3
+            o, p = _obs(f, p, nn)
+            evs.append("EvBegin %s%%nat %s %s %s" % (k, coq_bytes(path), coq_bytes(meth), o))
         elif t == "W":
             evs.append("EvWrite %s%%nat %s" % (f[p], f[p + 1])); p += 2
+        elif t == "F":
+            evs.append("EvFlush %s%%nat" % f[p]); p += 1
         elif t == "X":
-            how = {"ret": "Returned", "rec": "Recovered"}.get(f[p + 1], "Escaped")
-            evs.append("EvExit %s%%nat %s %s" % (f[p], how, coq_bytes(f[p + 2]))); p += 3
+            k = f[p]; p += 1
+            o, p = _obs(f, p, nn)
+            evs.append("EvExit %s%%nat %s" % (k, o))
+        elif t == "Y":
+            k = f[p]; how = {"ret": "Returned", "rec": "Recovered"}.get(f[p + 1], "Escaped"); p += 2
+            o, p = _obs(f, p, nn)
+            evs.append("EvAfter %s%%nat %s %s" % (k, how, o))
         else:
             raise ValueError("event " + t)
     return evs
@@ -71,11 +82,15 @@ CFG = dict(
     coq_sample={"quick": 60, "thorough": 200},
     rule=("one evaluation = one request served by a real Mux inside a history and compared (a) in Go with the same request on a FRESH Mux "
           "with the routes registered at that time and (b) by the extracted specification/model replay of the whole history; "
-          "histories: 1-40 operations from one goroutine (registrations between requests, routes with 0-3 differently named params and "
-          "'*', matched / unmatched / half-matched URLs, '' and '/', handlers that call WriteHeader, panic with Logger.Relay recovering, or "
+          "histories: 1-40 operations from one goroutine (registrations between requests incl. HandleNoRoute/HandleRelay again, routes with "
+          "0-3 params and '*' whose names are case variants / prefixes / extensions of each other {a,A,ab,id,ID,b}, matched / unmatched / "
+          "half-matched URLs, '' and '/', handlers that call WriteHeader and/or Flush, return, panic with Logger.Relay recovering, or "
           "panic through a non-recovering relay so that the panic leaves ServeHTTP), histories with 1-3 requests held in flight by channels "
-          "while others complete, and histories from 8 goroutines with registrations between phases; every handler reads RouteParam of "
-          "all six names, RouteParamAny, W.Status, GetID at entry and exit; built with -race. distinct_nontrivial = histories"),
+          "while others complete, and histories from 8 goroutines with registrations between phases; every request reads RouteParam of "
+          "twelve names {a,A,ab,abc,b,B,i,id,ID,Id,id2,zz}, RouteParamAny, Store.I, W.Status and GetID THREE times: at handler entry, at "
+          "handler exit, and in the relay after the handler (before ServeHTTP resets the Store); plus one id-only history of 60,000 "
+          "(thorough: 400,000) sequential requests on one Mux whose i-th id must be prefix+base36(i) (checked in Go only); built with "
+          "-race. Whether a handler panic propagates out of ServeHTTP is counted, not judged. distinct_nontrivial = histories"),
     trusted_base=[HARNESS_TB, EXTRACT_TB,
                   "Lib/RouteSpec.v match_spec is what 'a fresh Mux with these routes' answers (proved for the model in C04; also checked "
                   "against a really fresh Mux in Go on every request)",
@@ -88,7 +103,10 @@ CFG = dict(
                  "registered before or after earlier requests, not during (model: LRegister is enabled only with no request in flight)",
                  "a rejected registration (Handle panics) ends the history (see C04: partially created trie nodes)",
                  "ids are unique until the uint64 counter wraps (2^64 requests per Mux)",
-                 "a handler does not keep the *Store (or the string returned by GetID, which aliases the Store's buffer) after it returns"],
+                 "a handler does not keep the *Store (or the string returned by GetID, which aliases the Store's buffer) after it returns",
+                 "W.Status changes only through the request's own actions: WriteHeader / Write (model label LWrite k (WriteHeader c)), "
+                 "Flush / FlushError (LWrite k Flush: 200 if it was 0) and the relay's own bookkeeping (Logger.Relay sets 200 at REQ_END and "
+                 "500 after a recovered panic; the harness logs these as writes of that request)"],
 )
 CFG["manifest"] = dict(
     text=("Proof: for every history of a Mux - registrations, requests that overlap arbitrarily, any choice of pooled or new Store by "
